@@ -145,3 +145,91 @@ example : toList (run ([], init) [.push 1, .push 2, .push 3, .unlinkThis 2, .unl
 example : (run ([], init) [.push 1, .push 2, .push 3, .unlinkThis 2]).1 = [3, 1] := by decide
 
 end Tromp.Chain
+
+/-! ### a family of chains over one `next` member (one chain per watched object) -/
+
+namespace Tromp.Chain
+
+structure Fam where
+  heads : Nat → Option Nat
+  next : Nat → Option Nat
+
+def Fam.proj (F : Fam) (x : Nat) : Heap := ⟨F.heads x, F.next⟩
+
+def Fam.put (F : Fam) (x : Nat) (h : Heap) : Fam := ⟨fun y => if y = x then h.head else F.heads y, h.next⟩
+
+def famInit : Fam := ⟨fun _ => none, fun _ => none⟩
+
+/-- every object's chain is represented, and no node is on two chains. -/
+structure FamRep (F : Fam) (lists : Nat → List Nat) : Prop where
+  each : ∀ x, Rep (F.proj x) (lists x)
+  disj : ∀ x y, x ≠ y → ∀ m ∈ lists x, m ∉ lists y
+
+theorem famRep_init : FamRep famInit (fun _ => []) :=
+  ⟨fun _ => rep_init, fun _ _ _ m hm => by cases hm⟩
+
+/-- an operation on the chain of `x` that writes only the head of `x` and `next` members of nodes on that chain (or of a node on
+    no chain) leaves every other chain as it was. -/
+theorem famRep_update {F : Fam} {lists : Nat → List Nat} (R : FamRep F lists) (x : Nat) (h' : Heap) (l' : List Nat)
+    (hx : Rep h' l') (hsub : ∀ m ∈ l', m ∈ lists x ∨ ∀ y, m ∉ lists y)
+    (hframe : ∀ m, (∀ y, y ≠ x → m ∈ lists y → h'.next m = F.next m)) :
+    FamRep (F.put x h') (fun y => if y = x then l' else lists y) := by
+  refine ⟨fun y => ?_, fun y z hne m hm hin => ?_⟩
+  · by_cases e : y = x
+    · subst e
+      have : (F.put y h').proj y = h' := by simp [Fam.put, Fam.proj]
+      simp only [if_true, this]; exact hx
+    · simp only [e, if_false]
+      have hR := R.each y
+      refine ⟨?_, hR.2⟩
+      have hh : ((F.put x h').proj y).head = (F.proj y).head := by simp [Fam.put, Fam.proj, e]
+      rw [hh]
+      exact chain_congr hR.1 (fun m hm => by show h'.next m = F.next m; exact hframe m y e hm)
+  · by_cases e1 : y = x
+    · subst e1
+      have e2 : z ≠ y := fun e => hne e.symm
+      simp only [if_true] at hm
+      simp only [e2, if_false] at hin
+      rcases hsub m hm with h | h
+      · exact R.disj y z hne m h hin
+      · exact h z hin
+    · simp only [e1, if_false] at hm
+      by_cases e2 : z = x
+      · subst e2
+        simp only [if_true] at hin
+        rcases hsub m hin with h | h
+        · exact R.disj y z hne m hm h
+        · exact h y hm
+      · simp only [e2, if_false] at hin
+        exact R.disj y z hne m hm hin
+
+/-- a new requirement `m` (on no chain) hooks itself in front of the chain of object `x`. -/
+theorem famRep_push {F : Fam} {lists : Nat → List Nat} (R : FamRep F lists) (x m : Nat) (hm : ∀ y, m ∉ lists y) :
+    FamRep (F.put x (push m (F.proj x))) (fun y => if y = x then m :: lists x else lists y) := by
+  refine famRep_update R x _ _ (rep_push (R.each x) (hm x)) ?_ ?_
+  · intro m' h'
+    rcases List.mem_cons.mp h' with rfl | h'
+    · exact Or.inr hm
+    · exact Or.inl h'
+  · intro m' y _ hin
+    have : m' ≠ m := by rintro rfl; exact hm y hin
+    simp [push, Heap.write, Fam.proj, this]
+
+/-- a requirement ends while its object is alive: the unlink-this loop on that object's chain. -/
+theorem famRep_unlinkThis {F : Fam} {lists : Nat → List Nat} (R : FamRep F lists) (x m : Nat) :
+    FamRep (F.put x (unlinkThis m ((lists x).length + 1) (F.proj x))) (fun y => if y = x then (lists x).erase m else lists y) := by
+  have hR := R.each x
+  obtain ⟨_, frame⟩ := unlinkLoop_chain m .head (lists x) 0 (by simpa [Heap.read] using hR.1) hR.2 (fun y e => by cases e)
+  refine famRep_update R x _ _ (rep_unlinkThis hR m 0) (fun m' h' => Or.inl (List.mem_of_mem_erase h')) ?_
+  intro m' y hy hin
+  have := frame (.nextOf m') (by intro e; cases e) (fun z hz e => by
+    cases e
+    exact R.disj x y (fun e => hy e.symm) m' hz hin)
+  simpa [Heap.read, unlinkThis, Fam.proj] using this
+
+/-- the object dies: `leak()` takes the head; the nodes keep their (now meaningless) `next` members. -/
+theorem famRep_clear {F : Fam} {lists : Nat → List Nat} (R : FamRep F lists) (x : Nat) :
+    FamRep (F.put x ⟨none, F.next⟩) (fun y => if y = x then [] else lists y) := by
+  refine famRep_update R x _ _ ⟨rfl, List.nodup_nil⟩ (fun m h => by cases h) (fun m y _ _ => rfl)
+
+end Tromp.Chain
